@@ -6,7 +6,8 @@ import struct
 from ..astutil import (call_name, calls_in, walk_no_nested, params_of, kw,
                        expand_locals, is_const, single_defs,
                        expand_fact_texts)
-from ..cfg import cfg_of, loop_body_paths, expr_owner_node, enumerate_paths
+from ..cfg import (cfg_of, loop_body_paths, expr_owner_node, enumerate_paths,
+                   facts_at)
 from ..loader import Program, AnalysisError, unparse
 from ..pathutil import (node_calls, node_yields, path_method_calls,
                         facts_before, describe_path, method_calls)
@@ -103,14 +104,61 @@ def rule_r1(chk, prog):
         raise AnalysisError('__setstate__: expected exactly one loop')
     rparams = params_of(r)
     state = rparams[1]
+    # roles: the cursor (left operand of the loop test) and the tag byte
+    # (the name bound to state[cursor])
+    lt = rloops[0].test
+    cursor = lt.left.id if isinstance(lt, ast.Compare) and isinstance(
+        lt.left, ast.Name) else 'i'
+    tagvar = None
+    for st in ast.walk(rloops[0]):
+        if isinstance(st, ast.Assign) and isinstance(
+                st.targets[0], ast.Name) and unparse(
+                    st.value) == f'{state}[{cursor}]':
+            tagvar = st.targets[0].id
+    if tagvar is None:
+        raise AnalysisError('__setstate__: tag byte variable not found')
+
+    def int_const(e, depth=0):
+        if isinstance(e, ast.Constant) and isinstance(e.value, int):
+            return e.value
+        if isinstance(e, ast.Call) and call_name(e) == 'ord' and len(
+                e.args) == 1 and isinstance(
+                    e.args[0], ast.Constant) and isinstance(
+                        e.args[0].value, (str, bytes)) and len(
+                            e.args[0].value) == 1:
+            v = e.args[0].value
+            return ord(v) if isinstance(v, str) else v[0]
+        if isinstance(e, ast.Subscript) and isinstance(
+                e.value, ast.Constant) and isinstance(
+                    e.value.value, bytes) and isinstance(
+                        e.slice, ast.Constant) and len(e.value.value) > 0:
+            try:
+                return e.value.value[e.slice.value]
+            except (IndexError, TypeError):
+                return None
+        if isinstance(e, ast.Name) and depth < 3 and len(
+                m.globals.get(e.id, [])) == 1:
+            return int_const(m.globals[e.id][0], depth + 1)
+        return None
+
     for p in loop_body_paths(rcfg, rloops[0]):
         tagv = None
         for (t, pol) in p.facts:
-            if pol and t.startswith('cur == '):
-                try:
-                    tagv = int(t.split('==')[1])
-                except ValueError:
-                    pass
+            if not pol:
+                continue
+            try:
+                e_ = ast.parse(t, mode='eval').body
+            except SyntaxError:
+                continue
+            if isinstance(e_, ast.Compare) and len(e_.ops) == 1 and \
+                    isinstance(e_.ops[0], ast.Eq):
+                l_, r_ = e_.left, e_.comparators[0]
+                if isinstance(r_, ast.Name) and r_.id == tagvar:
+                    l_, r_ = r_, l_
+                if isinstance(l_, ast.Name) and l_.id == tagvar:
+                    v_ = int_const(r_)
+                    if v_ is not None:
+                        tagv = v_
         if tagv is None:
             continue
         unp = []
@@ -123,7 +171,7 @@ def rule_r1(chk, prog):
             a = n.ast
             if n.kind == 'stmt' and isinstance(a, ast.AugAssign) and \
                     isinstance(a.op, ast.Add) and isinstance(
-                        a.target, ast.Name) and a.target.id == 'i':
+                        a.target, ast.Name) and a.target.id == cursor:
                 adv.append(a.value)
             for e in ast.walk(a) if n.kind == 'stmt' else []:
                 if isinstance(e, ast.Subscript) and isinstance(
@@ -144,7 +192,7 @@ def rule_r1(chk, prog):
                   any(t[0] == tagv for t in set(wrec) | closers),
                   f'the reader handles byte {tagv} which the writer never '
                   'emits', loc=m.loc(w))
-    syms = {'i', 'leaflen'}
+    syms = {cursor, 'leaflen'}
     for tagb, rec in wrec.items():
         rr = rrec.get(tagb[0])
         if rr is None:
@@ -173,7 +221,7 @@ def rule_r1(chk, prog):
         if ok:
             lo = linform(sl.slice.lower, syms)
             hi = linform(sl.slice.upper, syms)
-            ok = lf_eq(lo, {'i': 1, 1: 1}) and lf_eq(hi, {'i': 1,
+            ok = lf_eq(lo, {cursor: 1, 1: 1}) and lf_eq(hi, {cursor: 1,
                                                           1: 1 + size})
         chk.check('C12.R1', where_r, f'{tagb!r}: header slice {unparse(sl)}',
                   ok, f'header of {rec["fmt"]!r} is {size} bytes at offset '
@@ -230,14 +278,14 @@ def rule_r1(chk, prog):
                                 a0.func.value, ast.Subscript):
                         dec = a0
                         s2 = a0.func.value
-                        lo = linform(s2.slice.lower, {'i', lenn})
-                        hi = linform(s2.slice.upper, {'i', lenn})
-                        okr = lf_eq(lo, {'i': 1, 1: 1 + size}) and lf_eq(
-                            hi, {'i': 1, lenn: 1, 1: 1 + size})
+                        lo = linform(s2.slice.lower, {cursor, lenn})
+                        hi = linform(s2.slice.upper, {cursor, lenn})
+                        okr = lf_eq(lo, {cursor: 1, 1: 1 + size}) and lf_eq(
+                            hi, {cursor: 1, lenn: 1, 1: 1 + size})
                 # advance uses the length name
                 tot2 = {1: 0}
                 for a in rr['adv']:
-                    f = linform(a, {'i', lenn})
+                    f = linform(a, {cursor, lenn})
                     for k, v in f.items():
                         tot2[k] = tot2.get(k, 0) + v
                 okr = okr and lf_eq(tot2, {lenn: 1, 1: 1 + size})
@@ -570,9 +618,34 @@ def rule_r4(chk, prog):
     ncalls = [c for c in calls_in(dc) if call_name(c) == 'Node']
     chk.floor('C12.R4', 'Node(...) constructions in __deepcopy__',
               len(ncalls), 2)
+    # roles: the work list (loop test), the popped node, the frame stack
+    dloops = [l for l in walk_no_nested(dc) if isinstance(l, ast.While)]
+    dwork = unparse(dloops[0].test) if len(dloops) == 1 else None
+    dpop = None
+    for st in ast.walk(dc):
+        if isinstance(st, ast.Assign) and isinstance(
+                st.value, ast.Call) and isinstance(
+                    st.value.func, ast.Attribute) and \
+                st.value.func.attr == 'pop' and dwork is not None and \
+                unparse(st.value.func.value) == dwork:
+            t_ = st.targets[0]
+            dpop = t_.elts[0].id if isinstance(t_, ast.Tuple) else t_.id
+    from ..astutil import single_defs as _sd
+    dsd = _sd(dc)
     for c in ncalls:
         a = [unparse(x) for x in c.args]
-        ok = a in (['expr.data'], ['*children'])
+        ok = False
+        if len(c.args) == 1 and not c.keywords:
+            x = c.args[0]
+            if isinstance(x, ast.Starred) and isinstance(x.value, ast.Name):
+                # Node(*<children>): children popped from the frame stack
+                d_ = dsd.get(x.value.id)
+                ok = isinstance(d_, ast.Call) and isinstance(
+                    d_.func, ast.Attribute) and d_.func.attr == 'pop' and \
+                    unparse(d_.func.value) != dwork
+            elif dpop is not None and unparse(x) == f'{dpop}.data':
+                # Node(<text of the popped leaf>) under the leaf test
+                ok = (f'{dpop}.is_leaf()', True) in facts_at(dc, c)
         chk.check('C12.R4', 'nodes.Node.__deepcopy__', c, ok,
                   'the copy must be built from the original text / the '
                   f'copied children only; found Node({", ".join(a)})',
@@ -647,6 +720,66 @@ WALKERS = {
     'count_nodes': ('pop', False, 'count-all'),
     'count_exprs': ('pop', False, 'count-lists'),
 }
+
+
+def _children_pushed(p, loop, kind):
+    """On this iteration path all children of the popped node reach the
+    work list exactly once: one extend with popv.data (plain, reversed,
+    list()/comprehension over it), or a loop over popv.data that appends
+    its variable."""
+    work = unparse(loop.test)
+    popv = None
+    for st in ast.walk(loop):
+        if isinstance(st, ast.Assign) and isinstance(
+                st.value, ast.Call) and isinstance(
+                    st.value.func, ast.Attribute) and st.value.func.attr in (
+                        'pop', 'popleft') and unparse(
+                            st.value.func.value) == work:
+            t = st.targets[0]
+            popv = t.elts[-1].id if isinstance(t, ast.Tuple) else t.id
+    if popv is None:
+        return False
+    data = (f'{popv}.data', popv)
+
+    def over_children(e):
+        if isinstance(e, ast.Call) and call_name(e) in (
+                'reversed', 'list', 'tuple') and e.args:
+            return over_children(e.args[0])
+        if isinstance(e, (ast.ListComp, ast.GeneratorExp)):
+            return len(e.generators) == 1 and unparse(
+                e.generators[0].iter).replace('reversed(', '').rstrip(
+                    ')') in data
+        return unparse(e) in data
+
+    pushes = 0
+    for (i, n, c) in path_method_calls(p):
+        if unparse(c.func.value) != work or not c.args:
+            continue
+        if c.func.attr == 'extend' and over_children(c.args[0]):
+            pushes += 1
+        elif c.func.attr in ('append', 'appendleft') and isinstance(
+                c.args[0], ast.Name):
+            par = getattr(c, '_parent', None)
+            while par is not None and par is not loop:
+                if isinstance(par, ast.For) and isinstance(
+                        par.target, ast.Name) and \
+                        par.target.id == c.args[0].id and unparse(
+                            par.iter) in data:
+                    pushes += 1
+                    break
+                par = getattr(par, '_parent', None)
+    if pushes == 1:
+        return True
+    if pushes == 0 and kind == 'count-lists':
+        # a loop over the children whose only push is under the leaf filter
+        # may contribute no push on the enumerated path (all-leaf branch)
+        for st in ast.walk(loop):
+            if isinstance(st, ast.For) and unparse(st.iter) in data:
+                return any(isinstance(c, ast.Call) and isinstance(
+                    c.func, ast.Attribute) and c.func.attr == 'append'
+                    and unparse(c.func.value) == work
+                    for c in ast.walk(st))
+    return False
 
 
 def rule_r5(chk, prog):
@@ -742,8 +875,7 @@ def rule_r5(chk, prog):
                 chk.check('C12.R5', where, f'{desc}: counting', ok, msg,
                           loc=m.loc(loops[0]), nontrivial=True)
                 if leaf_f:
-                    ok = len(exts) == 1 and 'in expr.data' in unparse(
-                        exts[0][2].args[0])
+                    ok = _children_pushed(p, loops[0], kind)
                     chk.check('C12.R5', where, f'{desc}: push children', ok,
                               'children of a tuple must be pushed exactly '
                               'once', loc=m.loc(loops[0]), nontrivial=True)
